@@ -217,7 +217,12 @@ int rename(char const* a, char const* b)
     if (!vf::fs_tracked(a) && !vf::fs_tracked(b)) return real(a, b);
     vf::fs_before(false);
     int const rc = real(a, b);
-    if (rc == 0) { vf::fs_op op; op.kind = vf::fs_rename; op.path = a; op.path2 = b; vf::fs().log.push_back(op); }
+    if (rc == 0)
+    {
+        vf::fs_op op; op.kind = vf::fs_rename; op.path = a; op.path2 = b; vf::fs().log.push_back(op);
+        // descriptors that are still open on the renamed file now write to the new name
+        for (auto& fd : vf::fs().fds) if (fd.second == a) fd.second = b;
+    }
     return rc;
 }
 
